@@ -28,12 +28,13 @@ ASSUMPTIONS = [
     "canonical state drops _timestep (no method reads it before overwriting it) and event identities (heap behaviour depends on (ts,precedence) only)",
     "bounded depth: behaviours needing longer operation sequences are outside the guarantee",
     "third shape ('ident'): every add sequence of length 4 (thorough 5) over timestamps {0,1} x {unplug, plug-in} x two sessions (+recompute), optional JSON dump, drained by get_event / get_current_events",
+    "fourth shape: as 'ident' with a recompute event whose precedence attribute was set to -1 by its owner (ranks before unplugs; must survive the JSON round trip)",
     "second shape ('fill'): every add sequence of length 6 (thorough 7) over timestamps {0,1} x kinds, optional JSON dump, then a complete drain with get_event on original and restored queue",
 ]
 CHUNK = 8
 
 KINDS = ("U", "P", "R")
-PREC = {"U": 0, "P": 10, "R": 20}  # the documented order: unplug < plug-in < recompute
+PREC = {"U": 0, "P": 10, "R": 20, "X": -1}  # the documented order: unplug < plug-in < recompute; X = a recompute request whose owner set its precedence to -1
 TYPE2KIND = {"Unplug": "U", "Plugin": "P", "Recompute": "R"}
 
 _uid = [0]
@@ -64,6 +65,10 @@ def mk_event(ts, kind, who=None):
     _uid[0] += 1
     if kind == "R":
         return RecomputeEvent(ts)
+    if kind == "X":
+        e = RecomputeEvent(ts)
+        e.precedence = -1  # precedence is a public attribute of an event; the queue orders by it
+        return e
     if who is not None:
         # events of a small pool of sessions: the same session may have its plug-in and its unplug pending at one
         # timestamp, and session order is the reverse of station order (ordering must not look at either)
@@ -76,6 +81,8 @@ def mk_event(ts, kind, who=None):
 
 def key(e):
     k = TYPE2KIND.get(e.event_type, "?")
+    if k == "R" and e.precedence == -1:
+        k = "X"
     if hasattr(e, "ev"):
         return (e.timestamp, k, e.ev.session_id)
     return (e.timestamp, k, None)
@@ -279,6 +286,7 @@ def run_fill(item):
     return acc
 
 
+USERPREC = [(ts, k, None) for ts in (0, 1) for k in ("X", "U", "P", "R")]
 IDENT = [(ts, k, who) for ts in (0, 1) for k in ("U", "P") for who in (0, 1)] + [(0, "R", None), (1, "R", None)]
 
 
@@ -290,6 +298,7 @@ def run_ident(item):
 
     acc = Acc()
     n = item["n"]
+    IDENT = USERPREC if item.get("pool") == "userprec" else globals()["IDENT"]
     for rest in itertools.product(range(len(IDENT)), repeat=n - 1):
         seq = [item["first"]] + list(rest)
         ops = [["add", IDENT[i][0], IDENT[i][1]] + ([IDENT[i][2]] if IDENT[i][2] is not None else []) for i in seq]
@@ -304,7 +313,7 @@ def run_ident(item):
                     acc.outcome(("ident", len(st.model)))
         heap = tuple(IDENT[i] for i in seq)
         acc.state(("ident", heap))
-        if len({(ts, who) for ts, k, who in heap if who is not None}) < sum(1 for ts, k, who in heap if who is not None):
+        if len({(ts, who) for ts, k, who in heap if who is not None}) < sum(1 for ts, k, who in heap if who is not None) or (item.get("pool") and any(k == "X" for _, k, _ in heap) and len({ts for ts, _, _ in heap}) < len(heap)):
             acc.nt(("ident", heap))
     acc.evals += acc.transitions
     acc.sample({"identity_fill_then_drain": n, "first": IDENT[item["first"]]}, cap=1)
@@ -325,6 +334,9 @@ def space(tier, seed):
         items.append({"fill": True, "n": n, "firsts": [f], "tier": tier})
     for f in range(len(IDENT)):
         items.append({"ident": True, "n": 4 if tier == "quick" else 5, "first": f, "tier": tier})
+    # fourth shape: a recompute request with a user-set precedence among ordinary events (same drains, JSON twin)
+    for f in range(len(USERPREC)):
+        items.append({"ident": True, "pool": "userprec", "n": 4 if tier == "quick" else 5, "first": f, "tier": tier})
     return items
 
 
